@@ -161,6 +161,10 @@ func (a *IdArg) Parse() error {
 	return nil
 }
 
+func isIdentifier(s string) bool {
+	return (&IdArg{arg(s)}).Parse() == nil
+}
+
 type PrefixArg struct {
 	arg
 	id *IdArg
@@ -263,6 +267,12 @@ func (a *DateArg) Parse() error {
 
 	if len(str) != 10 {
 		return ErrInval
+	}
+	// DIGIT only: strconv.Atoi below would also take a sign ("+201-01-01")
+	for i := 0; i < len(str); i++ {
+		if i != 4 && i != 7 && (str[i] < '0' || str[i] > '9') {
+			return ErrInval
+		}
 	}
 
 	/* 4DIGIT */
@@ -368,6 +378,12 @@ func (a *KeyArg) Parse() error {
 	if len(strs) == 0 {
 		return errors.New("invalid key argument: " + string(a.arg))
 	}
+	for _, s := range strs {
+		// a node identifier, or a path of them for a key nested in a container
+		if err := (&DescendantSchemaArg{arg: arg(s)}).Parse(); err != nil {
+			return errors.New("invalid key argument: " + string(a.arg))
+		}
+	}
 	a.keys = strs
 	return nil
 }
@@ -377,7 +393,31 @@ type UintArg struct {
 	i uint
 }
 
+// isIntegerValue reports whether s is an integer-value of RFC 6020 section 12:
+// "0" or a non-zero digit followed by digits, after a minus sign if signed.
+// No plus sign, no leading zeros.
+func isIntegerValue(s string, signed bool) bool {
+	if signed {
+		s = strings.TrimPrefix(s, "-")
+	}
+	if s == "0" {
+		return true
+	}
+	if s == "" || s[0] < '1' || s[0] > '9' {
+		return false
+	}
+	for i := 1; i < len(s); i++ {
+		if s[i] < '0' || s[i] > '9' {
+			return false
+		}
+	}
+	return true
+}
+
 func (a *UintArg) Parse() error {
+	if !isIntegerValue(string(a.arg), false) {
+		return &strconv.NumError{Func: "ParseUint", Num: string(a.arg), Err: strconv.ErrSyntax}
+	}
 	// decimal only: base 0 would also accept 0x10, 0b11, 010 and 1_0
 	i, e := strconv.ParseUint(string(a.arg), 10, 32)
 	if e != nil {
@@ -393,6 +433,9 @@ type IntArg struct {
 }
 
 func (a *IntArg) Parse() error {
+	if !isIntegerValue(string(a.arg), true) {
+		return &strconv.NumError{Func: "ParseInt", Num: string(a.arg), Err: strconv.ErrSyntax}
+	}
 	i, e := strconv.ParseInt(string(a.arg), 10, 32)
 	if e != nil {
 		return e
@@ -668,6 +711,9 @@ func (a *LengthArg) Parse() error {
 			case "min":
 				l.Min = true
 			default:
+				if !isIntegerValue(bs[0], false) {
+					return ErrInval
+				}
 				i, e := strconv.ParseUint(bs[0], 10, 64)
 				if e != nil {
 					return e
@@ -680,6 +726,9 @@ func (a *LengthArg) Parse() error {
 			case "min":
 				l.Min = true
 			default:
+				if !isIntegerValue(bs[0], false) {
+					return ErrInval
+				}
 				i, e = strconv.ParseUint(bs[0], 10, 64)
 				if e != nil {
 					return e
@@ -690,6 +739,9 @@ func (a *LengthArg) Parse() error {
 			case "max":
 				l.Max = true
 			default:
+				if !isIntegerValue(bs[1], false) {
+					return ErrInval
+				}
 				i, e = strconv.ParseUint(bs[1], 10, 64)
 				if e != nil {
 					return e
@@ -762,6 +814,9 @@ func (a *FractionDigitsArg) Parse() error {
 	var err error
 	var str = string(a.arg)
 	var ErrInval = errors.New("invalid argument: " + str)
+	if !isIntegerValue(str, false) {
+		return ErrInval
+	}
 	switch len(str) {
 	case 1:
 		fallthrough
